@@ -755,14 +755,14 @@ class Fn:
     def exit_anchor(self, nm, prefix, text):
         """Structural anchor: the n-th of exactly m `break` / `return` expressions of the function.  The expression E becomes
         the block `{ <ghost text> E }` (same value and control flow; a block is allowed wherever the expression was:
-        statement, match arm, tail).  A different count or another expression text is a lost anchor."""
+        statement, match arm, tail).  A different count, or an expression that does not start with the given text, is a lost anchor."""
         n, m = (int(x) for x in nm.split('/'))
         ex = self.exits()
         if len(ex) != m:
             raise LostAnchor('%s: %d break/return expressions, overlay expects %d' % (self.name, len(ex), m))
         a, b = ex[n - 1]
         got = ' '.join(self.text[a:b].split())
-        if prefix and got != ' '.join(prefix.split()):
+        if prefix and not got.startswith(' '.join(prefix.split())):
             raise LostAnchor('%s: exit %d is %r, overlay expects %r' % (self.name, n, got, prefix))
         self.replace(a, b, '{\n' + text.rstrip() + '\n' + self.text[a:b] + ' }')
 
